@@ -311,9 +311,9 @@ class Unit:
             m = ENV_TAG_RE.search(line)
             tag = None
             if m:
+                # tags attribute a failing env clause to properties; nothing is dropped (a dropped
+                # `requires` line can change the meaning of the lines around it)
                 tags = [t.strip() for t in m.group(2).split(",") if t.strip()]
-                if self.prop is not None and tags and self.prop not in tags:
-                    continue
                 tag = {"env": f"env/{rel}:{ln}", "label": m.group(1) or f"l{ln}", "tags": tags}
             else:
                 tag = {"env": f"env/{rel}:{ln}", "label": None, "tags": []}
@@ -330,8 +330,6 @@ class Unit:
             if m:
                 tags = [t.strip() for t in m.group(2).split(",") if t.strip()]
                 label = m.group(1)
-                if self.prop is not None and tags and self.prop not in tags:
-                    continue
             self.raw(line + "\n", tag={"env": f"specs/{rel}:{ln}", "label": label, "tags": tags})
         for k, v in fns.items():
             if k in self.specs:
